@@ -216,6 +216,43 @@ def dro_histories():
         a.st(a.le(x, 2.0))
 
     @reg
+    def ambiguity_extended_after_solve(a):
+        """Expectation information is added through a scenario accessor AFTER the model was formulated and
+        solved once; a further constraint is added and the model is solved again."""
+        p = a.scen(2)
+        x = a.dvar(())
+        z = a.rvar(())
+        F = a.ambiguity()
+        a.supp(F, None, a.ge(z, -1.0), a.le(z, 1.0))
+        a.expt(F, None, a.le(a.Ez(z), 0.75))
+        a.prob(F, a.eq(p, A([0.5, 0.5])))
+        a.minsup(a.E(x + z), F)
+        a.st(a.ge(x, -1.0))
+        if a.kind == 'real':
+            with quiet():
+                a.m.do_math()
+                a.m.solve(display=False)
+        a.expt(F, [0], a.le(a.Ez(z), -0.25))
+        a.st(a.le(x, 1.0))
+
+    @reg
+    def support_changed_after_solve(a):
+        p = a.scen(2)
+        x = a.dvar(())
+        z = a.rvar(())
+        F = a.ambiguity()
+        a.supp(F, None, a.ge(z, -1.0), a.le(z, 1.0))
+        a.prob(F, a.ge(p, 0.25))
+        a.minsup(a.E(a.maxof(x * z, 1.0 - x)), F)
+        a.st(a.ge(x, -2.0))
+        if a.kind == 'real':
+            with quiet():
+                a.m.do_math()
+                a.m.solve(display=False)
+        a.supp(F, [1], a.ge(z, 0.0), a.le(z, 3.0))
+        a.st(a.le(x, 2.0))
+
+    @reg
     def repeated_formulation(a):
         p = a.scen(2)
         x = a.dvar(2)
